@@ -285,7 +285,7 @@ static void call_private_array(Ctx &c) {
   unlink(path);
   Crystal_Atom at[2] = {{14, 1.0, 0.0, 0.0, 0.0}, {8, 0.5, 0.25, 0.25, 0.25}};
   Crystal_Struct own;
-  char own_name[] = "zz_private_entry";
+  char own_name[] = "AA_private_entry";   /* sorts before the generated names: the entry added last is not the last entry */
   own.name = own_name; own.a = 4.0; own.b = 5.0; own.c = 6.0; own.alpha = 90; own.beta = 100; own.gamma = 90; own.volume = 0; own.n_atom = 2; own.atom = at;
   int rv2 = Crystal_AddCrystal(&own, a, NULL);
   int n = -1;
